@@ -1615,20 +1615,25 @@ theorem sheetPairs_handle (ext : Ext) (tracker : Tracker) (naRep : Str) (hna : n
         · simp [h2] at hp
       · exact ih (fun x hx => hwf x (List.mem_cons_of_mem _ hx)) _ p hp f
 
+/-- the table a handler value holds, if it is one -/
+def pairTable (p : Block Row × BlockVal) : Option Precursor :=
+  match p.2 with
+  | .table q => some q
+  | _ => none
+
 /-- the tables among the blocks of a sheet are the written tables, in order -/
 theorem sheetPairs_tables (naRep : Str) (W sep : Nat) (tables : List TableVal) (i : Nat) :
-    (sheetPairs naRep W sep i tables).filterMap (fun p => match p.2 with | .table q => some q | _ => none) =
-      tables.map expected := by
+    (sheetPairs naRep W sep i tables).filterMap pairTable = tables.map expected := by
   induction tables generalizing i with
   | nil => rfl
   | cons t rest ih =>
     cases rest with
-    | nil => simp [sheetPairs]
+    | nil => simp [sheetPairs, pairTable]
     | cons t' r =>
-      have hb : (blankPairs W (i + (tableBlock naRep t).length)).filterMap
-          (fun p => match p.2 with | .table q => some q | _ => none) = [] := by
-        unfold blankPairs; split <;> simp
-      simp only [sheetPairs, List.filterMap_cons, List.filterMap_append, hb, List.nil_append, ih, List.map_cons]
+      have hb : (blankPairs W (i + (tableBlock naRep t).length)).filterMap pairTable = [] := by
+        unfold blankPairs; split <;> simp [pairTable]
+      simp only [sheetPairs, List.filterMap_cons, List.filterMap_append, hb, List.nil_append, ih, List.map_cons,
+        pairTable]
 
 /-- **one sheet**: reading the stored rows of a sheet written from well-formed tables delivers every block without
     an issue, and the tables among them are the written ones in order -/
